@@ -23,9 +23,12 @@ counts, checksums and sub-block bytes, any number of blocks — whose total samp
 followed by anything (`rest`; when the total is "unknown" the data after the last block must not
 look like another block header), `WavPackInfo` reports exactly the encoded version, channel count,
 rate, sample size, and the duration `samples / rate` where `samples` is the header's total or, when
-that is unknown, the sum of the blocks' sample counts. -/
-theorem wavpack_info_decodes_partial (h : Fields) (ok : h.OK) (fits : h.fits32) (rest : Bytes)
-    (hrest : h.totalSamples = none → NoHeader rest) :
+that is unknown, the sum of the blocks' sample counts.  A stream that was cut out of a longer one (first block index
+`firstIndex` ≠ 0, visible in the low 32 bits: `indexFits`) holds the samples of its blocks, whatever total the header carries:
+its duration is the sum of the blocks' sample counts over the rate as well (`counted`: then, too, what follows the last block
+must not look like a block header). -/
+theorem wavpack_info_decodes_partial (h : Fields) (ok : h.OK) (fits : h.fits32) (ifits : h.indexFits) (rest : Bytes)
+    (hrest : h.counted → NoHeader rest) :
     parse (build h ++ rest) = .ok (expected h) := by
   have hfl := flags_lt h ok
   have ok' := ok
@@ -37,32 +40,50 @@ theorem wavpack_info_decodes_partial (h : Fields) (ok : h.OK) (fits : h.fits32) 
   have hmono : (flags h / 4 % 2 = 1) ↔ h.mono = true := by
     unfold flags; cases h.mono <;> simp <;> omega
   unfold parse build
-  simp only [buildBlocks, List.append_assoc, fromFileobj_block h ok 0 h.first hfirst, hidx, hrow, hdsd, hbits,
+  simp only [buildBlocks, List.append_assoc, fromFileobj_block h ok h.firstIndex h.first hfirst, hidx, hrow, hdsd, hbits,
     ↓reduceIte]
   have hch : (if flags h / 4 % 2 = 1 then 1 else 2) = (if h.mono = true then 1 else 2) := by
     by_cases hm : h.mono = true
     · rw [if_pos hm, if_pos (hmono.mpr hm)]
     · rw [if_neg hm, if_neg (fun hc => hm (hmono.mp hc))]
   rw [hch]
-  cases hts : h.totalSamples with
-  | some t =>
-    have htl : t < 2 ^ 32 - 1 := fits t hts
-    have hst : storedTotal h % 2 ^ 32 = t := by
-      unfold storedTotal; rw [hts]; simp only; omega
-    have hne : ¬ (t = 2 ^ 32 - 1) := by omega
-    simp only [hst, hne, ↓reduceIte, Nat.zero_mod, hnz, expected, samples, rate, hts]
-  | none =>
-    have hst : storedTotal h % 2 ^ 32 = 2 ^ 32 - 1 := by
-      unfold storedTotal; rw [hts]; decide
-    have hpos : 8 + (24 + h.first.payload.length) = (buildBlock h 0 h.first).length := by
+  -- the counting branch, whatever sends the code there
+  have hcount : h.counted →
+      sumBlocks (buildBlock h h.firstIndex h.first ++ (buildBlocks h (h.firstIndex + h.first.samples) h.more ++ rest))
+        (buildBlock h h.firstIndex h.first ++ (buildBlocks h (h.firstIndex + h.first.samples) h.more ++ rest)).length
+        (8 + (24 + h.first.payload.length)) h.first.samples = .ok (h.first.samples + (h.more.map (·.samples)).sum) := by
+    intro hc
+    have hpos : 8 + (24 + h.first.payload.length) = (buildBlock h h.firstIndex h.first).length := by
       rw [length_buildBlock]; omega
-    have hfuel : h.more.length ≤ (buildBlock h 0 h.first ++ (buildBlocks h (0 + h.first.samples) h.more ++ rest)).length := by
-      have := length_le_buildBlocks h h.more (0 + h.first.samples)
+    have hfuel : h.more.length ≤ (buildBlock h h.firstIndex h.first ++ (buildBlocks h (h.firstIndex + h.first.samples) h.more ++ rest)).length := by
+      have := length_le_buildBlocks h h.more (h.firstIndex + h.first.samples)
       simp only [List.length_append]; omega
-    simp only [hst, ↓reduceIte, hpos]
-    rw [sumBlocks_blocks h ok rest (hrest hts) h.more hmore (buildBlock h 0 h.first) (0 + h.first.samples) _ _ hfuel]
-    simp only [hnz, ↓reduceIte, expected, samples, rate, hts, List.map_cons, List.sum_cons]
-
+    rw [hpos]
+    exact sumBlocks_blocks h ok rest (hrest hc) h.more hmore (buildBlock h h.firstIndex h.first) (h.firstIndex + h.first.samples) _ _ hfuel
+  by_cases hfi : h.firstIndex = 0
+  · cases hts : h.totalSamples with
+    | some t =>
+      have htl : t < 2 ^ 32 - 1 := fits t hts
+      have hst : storedTotal h % 2 ^ 32 = t := by
+        unfold storedTotal; rw [hts]; simp only; omega
+      have hne : ¬ (t = 2 ^ 32 - 1) := by omega
+      simp only [hst, hne, ↓reduceIte, hfi, Nat.zero_mod, hnz, expected, samples, rate, hts]
+    | none =>
+      have hst : storedTotal h % 2 ^ 32 = 2 ^ 32 - 1 := by
+        unfold storedTotal; rw [hts]; decide
+      have hc := hcount (Or.inl hts)
+      simp only [hst, ↓reduceIte]
+      rw [hc]
+      simp only [hnz, ↓reduceIte, expected, samples, rate, hts, List.map_cons, List.sum_cons]
+  · have hlow : h.firstIndex % 2 ^ 32 ≠ 0 := by rcases ifits with h0 | h1; exact absurd h0 hfi; exact h1
+    have hc := hcount (Or.inr hfi)
+    obtain ⟨k, hk⟩ : ∃ k, h.firstIndex % 2 ^ 32 = k + 1 := ⟨h.firstIndex % 2 ^ 32 - 1, by omega⟩
+    obtain ⟨j, hj⟩ : ∃ j, h.firstIndex = j + 1 := ⟨h.firstIndex - 1, by omega⟩
+    simp only [hk]
+    rw [hc]
+    simp only [hnz, ↓reduceIte, expected, samples, rate, hj, List.map_cons, List.sum_cons]
+    generalize (if storedTotal h % 2 ^ 32 = 2 ^ 32 - 1 then none else some (storedTotal h % 2 ^ 32)) = o
+    cases o <;> cases h.totalSamples <;> rfl
 
 /-- what mutagen takes for the sample count: the stored count modulo 2^32 - 1 (the low 32 bits of the 40-bit field), or
 the sum of the blocks' counts when the header says "unknown" -/
@@ -74,7 +95,7 @@ def reportedSamples (h : Fields) : Nat :=
 /-- what `WavPackInfo` DOES report for ALL headers, the WavPack 5 40-bit sample counts included: everything as in
 `wavpack_info_decodes_partial`, with the sample count taken modulo 2^32 - 1 (the 40-bit value is stored as `t + t / (2^32-1)`
 and only its low 32 bits are read). -/
-theorem wavpack_info_reports (h : Fields) (ok : h.OK) (rest : Bytes)
+theorem wavpack_info_reports (h : Fields) (ok : h.OK) (hfi : h.firstIndex = 0) (rest : Bytes)
     (hrest : h.totalSamples = none → NoHeader rest) :
     parse (build h ++ rest) = .ok { expected h with length := ⟨(reportedSamples h : Nat), rate h⟩ } := by
   have hfl := flags_lt h ok
@@ -86,7 +107,9 @@ theorem wavpack_info_reports (h : Fields) (ok : h.OK) (rest : Bytes)
   have hbits : (flags h % 4 + 1) * 8 = 8 * h.bytesPerSample := by unfold flags; split <;> omega
   have hmono : (flags h / 4 % 2 = 1) ↔ h.mono = true := by
     unfold flags; cases h.mono <;> simp <;> omega
-  unfold parse build
+  have hbld : build h = buildBlocks h 0 (h.first :: h.more) := by unfold build; rw [hfi]
+  rw [hbld]
+  unfold parse
   simp only [buildBlocks, List.append_assoc, fromFileobj_block h ok 0 h.first hfirst, hidx, hrow, hdsd, hbits,
     ↓reduceIte]
   have hch : (if flags h / 4 % 2 = 1 then 1 else 2) = (if h.mono = true then 1 else 2) := by
